@@ -3425,12 +3425,74 @@ fn random_program_case(sh: &mut Shard, tape: &[u32]) -> Result<(), Violation> {
 
 // ------------------------------------------------------------------------------------------------
 
+/// Arrays of one base name and different suffixes are different arrays, and the bare name is the array of the default type:
+/// an array `N<s>()` (s one of % & # $) is declared and written, then the bare `N()` is declared (another array: N!), written
+/// and both are read back with their bounds - static (DIM) and dynamic (REDIM, also re-dimensioned once more) declarations.
+fn array_suffix_family(sh: &mut Shard) -> bool {
+    let mut index = 0u64;
+    for (si, sfx) in ["%", "&", "#", "$"].iter().enumerate() {
+        for decl in ["DIM", "REDIM"] {
+            for again in [false, true] {
+                for bare_first in [false, true] {
+                    index += 1;
+                    if sh.shard as u64 != index % sh.nshards as u64 {
+                        continue;
+                    }
+                    if again && decl == "DIM" {
+                        continue;
+                    }
+                    let base = format!("Nq{}", TAILS[si]);
+                    let (v1, lit1) = if *sfx == "$" { ("v41".to_string(), "\"v41\"".to_string()) } else { ("41".to_string(), "41".to_string()) };
+                    let a = vec![format!("{} {}{}(1 TO 2)", decl, base, sfx), format!("{}{}(1) = {}", base, sfx, lit1)];
+                    let mut b = vec![format!("{} {}(1 TO 5)", decl, base), format!("{}(5) = 52", base)];
+                    if again {
+                        // the bare REDIM once more: it re-dimensions the array of the default type, not its namesake
+                        b.push(format!("REDIM {}(1 TO 7)", base));
+                        b.push(format!("{}(7) = 52", base));
+                    }
+                    let hi = if again { 7 } else { 5 };
+                    let mut lines: Vec<String> = if bare_first { b.iter().chain(a.iter()).cloned().collect() } else { a.iter().chain(b.iter()).cloned().collect() };
+                    let mut p = Prog { src: String::new(), prints: vec![], stmts: vec![], reject: None, deftype: String::new(), values: vec![] };
+                    for (k, (expr, expected, tag)) in [
+                        (format!("{}{}(1)", base, sfx), v1.clone(), "array-of-another-suffix-keeps-its-element"),
+                        (format!("{}!({})", base, hi), "52".to_string(), "bare-array-name-is-the-array-of-the-default-type"),
+                        (format!("UBOUND({}{})", base, sfx), "2".to_string(), "array-of-another-suffix-keeps-its-bounds"),
+                        (format!("UBOUND({})", base), hi.to_string(), "bare-array-has-its-own-bounds"),
+                    ]
+                    .into_iter()
+                    .enumerate()
+                    {
+                        let marker = format!("a{}", k);
+                        lines.push(format!("PRINT \"{}=\"; {}", marker, expr));
+                        p.prints.push(ExpPrint { marker, expected, tag: tag.to_string(), unit: usize::MAX, row: lines.len() as u32 });
+                    }
+                    for (r, _) in lines.iter().enumerate() {
+                        p.stmts.push(StmtTag { row: r as u32 + 1, tag: "array-suffix-family".to_string(), unit: usize::MAX });
+                    }
+                    p.src = lines.join("\n") + "\n";
+                    sh.eval();
+                    sh.journal(&p.src);
+                    sh.class(&format!("array-suffix-family:{}:{}", decl, sfx));
+                    sh.nontrivial(hash64(&p.src));
+                    for (_, v) in check_prog(&p) {
+                        if !sh.report(Err(v)) {
+                            return false;
+                        }
+                    }
+                }
+            }
+        }
+    }
+    sh.exhaustive("arrays of one base name: 4 suffixes x DIM / REDIM / REDIM twice x either order, next to the bare (default-type) array");
+    true
+}
+
 impl Prop for C13 {
     fn id(&self) -> &'static str {
         "C13"
     }
     fn rule(&self) -> &'static str {
-        "One case = one name-configuration unit: a base name (first letter chosen against the DEFtype statements at the top of the program) with one declaration kind in the global scope {absent, implicit use, DIM x<q> (compact, one or two qualifiers), DIM x AS t (INTEGER/LONG/SINGLE/DOUBLE/STRING/STRING*3/user TYPE), both also as DIM SHARED, CONST} and one in a SUB or FUNCTION scope {absent, implicit use, DIM compact, DIM extended, parameter x<q>, parameter x AS t, CONST}, or the base name is a FUNCTION name. The program assigns a distinct small integer (or 3-character string) through every spelling (bare and % & ! # $, mixed letter cases) that the reference resolver accepts and prints through every spelling: in the global scope before and after the call, in the subprogram before and after its own assignments. Up to 12 units with different base names share one program (attribution by source row / output marker). Expected values come from the independent resolver written from the statement + README; a must-reject unit carries one statement (foreign suffix on an extended variable, or extended + qualified compact DIM) that has to be rejected at its row. Enumerated part (identical in both tiers): see exhaustive_parts; random part: 0-3 DEFtype statements with up to 3 letters/ranges each in random letter case, 1-6 units with random declarations, spellings, orders, letter cases. ADDED (names before the DEFtype statements): whenever a DEFtype statement gives a letter a non-SINGLE type, a bare name with that letter is assigned BEFORE the DEFtype statements and read back through its ! spelling (a DEFtype statement changes the default type from its place in the text on), assigned again after them and read through the suffix of the new default type, and the SINGLE variable written first must have kept its value. ADDED (array parameters): a unit whose base name is an ARRAY PARAMETER of a SUB/FUNCTION, declared compact (`A%()`, `A$()`, bare `A()` typed by DEFtype) or extended (`A() AS INTEGER|LONG|SINGLE|DOUBLE|STRING|user TYPE`); a module-level array of the same element type (DIMmed compact with suffix, compact bare, or extended; same or another base name) gets two distinct element values and is passed; inside the subprogram every spelling that the resolver makes denote the parameter (extended: bare + matching suffix; compact: the suffix, and the bare name iff the letter's default type is the element type) reads the caller's values, three elements are written through alternating spellings and read back through every spelling, and the caller prints all three elements after return; next to a compact parameter a scalar of the same base name and ANOTHER type must be a fresh local; next to an extended parameter a foreign suffix (scalar or element, assignment or PRINT) must be rejected at its row. ADDED (constants): a unit with a global CONST and a CONST of the same bare name inside one SUB/FUNCTION (declared bare or suffixed, INTEGER/LONG/SINGLE/DOUBLE/STRING literal, so same and different suffix / value kind, always different values); the name is referenced bare and with the suffix of the innermost definition's type - directly, inside a later `CONST M = name * 2` / `name + \"!\"`, and as `DIM B AS STRING * name` (LEN printed) - at module level before the calls, after the calls and (one third) after the subprogram definitions, in the redefining subprogram after its CONST, and in two non-redefining subprograms (one textually before, one after the redefining one; one SUB, one FUNCTION): the innermost definition must win everywhere in the redefining subprogram, the global one everywhere else. ADDED (parameterless function names): a unit whose base name is a FUNCTION WITHOUT parameters (declared bare or with any suffix; result assigned once, bare or suffixed); the name is referenced bare / with the suffix of its type at module level, inside a SUB and inside ANOTHER FUNCTION (with / without a parameter of its own) in r-value positions (PRINT item, assignment right side, operand, IF condition, SELECT CASE, FOR limit) and in argument positions (user FUNCTION argument plain / parenthesized / inside an expression, user SUB argument with and without CALL, built-in function argument, array subscript): every reference is a call, so it shows the function's (non-zero / non-empty) value; a must-reject unit carries one statement outside the function's body that uses the name as a variable (assignment, FOR counter, READ, INPUT) or declares it again (DIM, DIM AS, CONST). ADDED (DIM SHARED clashes): a unit with `DIM SHARED x...` at module level (compact bare / suffixed or extended, scalar or array, with one accepted use) and a SUB/FUNCTION that declares the same base name as an extended name (local `DIM x AS t` or parameter `x AS t`, scalar or array) or - against an extended shared variable - as a qualified compact name (`DIM x$`, parameter `x$`): the declaration must be rejected at its row. A unit is non-trivial when it is one of these four kinds, or uses >= 2 spellings of its base name, or a non-SINGLE DEFtype covers its letter, or a subprogram scope has SHARED / a parameter / a CONST in play; distinct by unit configuration + DEFtype text."
+        "One case = one name-configuration unit: a base name (first letter chosen against the DEFtype statements at the top of the program) with one declaration kind in the global scope {absent, implicit use, DIM x<q> (compact, one or two qualifiers), DIM x AS t (INTEGER/LONG/SINGLE/DOUBLE/STRING/STRING*3/user TYPE), both also as DIM SHARED, CONST} and one in a SUB or FUNCTION scope {absent, implicit use, DIM compact, DIM extended, parameter x<q>, parameter x AS t, CONST}, or the base name is a FUNCTION name. The program assigns a distinct small integer (or 3-character string) through every spelling (bare and % & ! # $, mixed letter cases) that the reference resolver accepts and prints through every spelling: in the global scope before and after the call, in the subprogram before and after its own assignments. Up to 12 units with different base names share one program (attribution by source row / output marker). Expected values come from the independent resolver written from the statement + README; a must-reject unit carries one statement (foreign suffix on an extended variable, or extended + qualified compact DIM) that has to be rejected at its row. Enumerated part (identical in both tiers): see exhaustive_parts; random part: 0-3 DEFtype statements with up to 3 letters/ranges each in random letter case, 1-6 units with random declarations, spellings, orders, letter cases. ADDED (names before the DEFtype statements): whenever a DEFtype statement gives a letter a non-SINGLE type, a bare name with that letter is assigned BEFORE the DEFtype statements and read back through its ! spelling (a DEFtype statement changes the default type from its place in the text on), assigned again after them and read through the suffix of the new default type, and the SINGLE variable written first must have kept its value. ADDED (arrays of one base name): an array with a suffix and the bare array of the same base name (the default type) are different arrays with their own elements and bounds, DIMmed or REDIMmed (the bare one also re-dimensioned once more), in either order. ADDED (array parameters): a unit whose base name is an ARRAY PARAMETER of a SUB/FUNCTION, declared compact (`A%()`, `A$()`, bare `A()` typed by DEFtype) or extended (`A() AS INTEGER|LONG|SINGLE|DOUBLE|STRING|user TYPE`); a module-level array of the same element type (DIMmed compact with suffix, compact bare, or extended; same or another base name) gets two distinct element values and is passed; inside the subprogram every spelling that the resolver makes denote the parameter (extended: bare + matching suffix; compact: the suffix, and the bare name iff the letter's default type is the element type) reads the caller's values, three elements are written through alternating spellings and read back through every spelling, and the caller prints all three elements after return; next to a compact parameter a scalar of the same base name and ANOTHER type must be a fresh local; next to an extended parameter a foreign suffix (scalar or element, assignment or PRINT) must be rejected at its row. ADDED (constants): a unit with a global CONST and a CONST of the same bare name inside one SUB/FUNCTION (declared bare or suffixed, INTEGER/LONG/SINGLE/DOUBLE/STRING literal, so same and different suffix / value kind, always different values); the name is referenced bare and with the suffix of the innermost definition's type - directly, inside a later `CONST M = name * 2` / `name + \"!\"`, and as `DIM B AS STRING * name` (LEN printed) - at module level before the calls, after the calls and (one third) after the subprogram definitions, in the redefining subprogram after its CONST, and in two non-redefining subprograms (one textually before, one after the redefining one; one SUB, one FUNCTION): the innermost definition must win everywhere in the redefining subprogram, the global one everywhere else. ADDED (parameterless function names): a unit whose base name is a FUNCTION WITHOUT parameters (declared bare or with any suffix; result assigned once, bare or suffixed); the name is referenced bare / with the suffix of its type at module level, inside a SUB and inside ANOTHER FUNCTION (with / without a parameter of its own) in r-value positions (PRINT item, assignment right side, operand, IF condition, SELECT CASE, FOR limit) and in argument positions (user FUNCTION argument plain / parenthesized / inside an expression, user SUB argument with and without CALL, built-in function argument, array subscript): every reference is a call, so it shows the function's (non-zero / non-empty) value; a must-reject unit carries one statement outside the function's body that uses the name as a variable (assignment, FOR counter, READ, INPUT) or declares it again (DIM, DIM AS, CONST). ADDED (DIM SHARED clashes): a unit with `DIM SHARED x...` at module level (compact bare / suffixed or extended, scalar or array, with one accepted use) and a SUB/FUNCTION that declares the same base name as an extended name (local `DIM x AS t` or parameter `x AS t`, scalar or array) or - against an extended shared variable - as a qualified compact name (`DIM x$`, parameter `x$`): the declaration must be rejected at its row. A unit is non-trivial when it is one of these four kinds, or uses >= 2 spellings of its base name, or a non-SINGLE DEFtype covers its letter, or a subprogram scope has SHARED / a parameter / a CONST in play; distinct by unit configuration + DEFtype text."
     }
     fn assumptions(&self) -> Vec<&'static str> {
         vec![
@@ -3451,6 +3513,9 @@ impl Prop for C13 {
     }
     fn run(&self, sh: &mut Shard) {
         if !enumerate(sh) {
+            return;
+        }
+        if !array_suffix_family(sh) {
             return;
         }
         if !sh.stats.violations.is_empty() {
